@@ -14,6 +14,7 @@ EXTENDS Naturals, Sequences, TLC, Json
 CONSTANTS MaxLen, Sources
 VARIABLE sched
 Ops == {[op |-> o, src |-> s, res |-> ""] : o \in {"m", "e"}, s \in Sources \cup {""}} \cup
+       {[op |-> "mall", src |-> "", res |-> ""]} \cup       \* one batch with datapoints of every source and of no source
        {[op |-> o, src |-> "", res |-> ""] : o \in {"take", "emit", "hold", "release", "evict"}} \cup
        {[op |-> "answer", src |-> "", res |-> r] : r \in {"pos", "neg", "pos0"}}
 O(o, src, r) == [op |-> o, src |-> src, res |-> r]
